@@ -38,7 +38,7 @@ def strategy(tier):
         t = draw(trees.tree(P, max_files=4, cli_safe=True, big=False, modes=trees.MODES_NZ, nonempty_total=True))
         cmd = draw(st.sampled_from(COMMANDS))
         c = {"tree": t, "creator": draw(st.sampled_from(["TorrentFile", "Assembler2", "Assembler3"])),
-             "cmd": cmd, "flag": draw(st.sampled_from(["", "", "-q", "-v"])),
+             "cmd": cmd, "flag": draw(st.sampled_from(["", "", "-q", "-v", "-q -v", "-v -q"])),
              "damage": draw(st.sampled_from(["none", "none", "flip", "remove"])),
              "bystanders": draw(st.lists(st.sampled_from([".torrent", "NAME.torrent", "notes.txt", "outdir/.torrent", "outdir/other.torrent",
                                                           "outdir/NAME.torrent", "m.torrent.bak"]), unique=True, max_size=4)),
@@ -126,7 +126,7 @@ def run_case(case):
             mf_bytes = fd.read()
         before = sandbox.snapshot(box)
         content = root if case["content_path"] == "root" else box
-        pre = [case["flag"]] if case["flag"] else []
+        pre = case["flag"].split() if case["flag"] else []
         cmd = case["cmd"]
         exc = None
         expect_changed = None
